@@ -431,13 +431,24 @@ def act_command_case(draw):
     files = draw(files_strategy)
     if draw(st.integers(0, 14)) == 0:
         files['data/f2.txt'] = BIG_TEXT
+    phases = {'setup': draw(st.lists(cd_instr, max_size=2)) if draw(st.integers(0, 2)) == 0 else []}
+    if ch['defs'] and draw(st.integers(0, 2)) == 0:
+        # a program symbol of the chain is also used by a run instruction (before or after the action to check):
+        # what one use appends must not be seen by the other
+        p = {'head': {'k': 'sym', 'n': draw(st.sampled_from([d['n'] for d in ch['defs']]))}, 'args': [], 'last': None,
+             'cont': None, 'stdin': None, 'tr': None, 'paren': False}
+        p.update(draw(arg_list(simple=ch['defs'][0]['p']['head']['k'] == 'shell', max_size=2)))
+        if draw(st.integers(0, 2)) == 0:
+            p['stdin'] = draw(text_source(1))
+        phases.setdefault(draw(st.sampled_from(['setup', 'before-assert', 'cleanup'])), []).append(
+            {'k': 'run', 'ignore': True, 'p': p, 'shared_symbol': True})
     case = {
         'files': files,
         'pgms': ch['defs'],
         'act': {'k': 'program', 'p': ch['use'], 'explicit_actor': draw(st.booleans()),
                 'comments_before': draw(comment_lines)},
         'setup_stdin': draw(st.one_of(st.none(), _with_tsym(text_source(0)))),
-        'phases': {'setup': draw(st.lists(cd_instr, max_size=2)) if draw(st.integers(0, 2)) == 0 else []},
+        'phases': phases,
         'claims': draw(claims),
     }
     case['act_home'] = draw(act_home)
